@@ -29,6 +29,26 @@ def tagged(tag, msg):
     return shims._H("sha256", th + th + msg).digest()
 
 
+def hash_injective():
+    """collision resistance as instances: two distinct SHA-256 applications made on this path have equal outputs only for equal
+    inputs (stated assumption; used as a hypothesis of the history obligations, where a memo keyed by a hash value is at stake)"""
+    from symx.core import b_and, b_or, b_not, b_cmp, wrapb
+    by = {}
+    for fname, node in shims.HASH_CALLS:
+        lst = by.setdefault(fname, [])
+        if node not in lst:
+            lst.append(node)
+    conds = []
+    for nodes in by.values():
+        for i, a in enumerate(nodes):
+            for b in nodes[i + 1:]:
+                if len(a.args) != len(b.args):
+                    conds.append(b_not(b_cmp("eq", a, b)))
+                else:
+                    conds.append(b_or(b_not(b_cmp("eq", a, b)), b_and(*[b_cmp("eq", x, y) for x, y in zip(a.args[3:], b.args[3:])])))
+    return wrapb(b_and(*conds)) if conds else True
+
+
 def xor32(a, b):
     return core.norm(SBytes([x ^ y for x, y in zip(a, b)]))
 
@@ -66,7 +86,7 @@ def spec_sign(e, d, P_pt, msg, aux):
 
 
 @with_env()
-def _sign_path(e, warm, compressed=True, second=False):
+def _sign_path(e, warm, compressed=True, second=False, tweak=None):
     pecc = e.pecc
     phash = loader.load("phash")
     phash.TAG_HASH_CACHE.clear()
@@ -80,10 +100,32 @@ def _sign_path(e, warm, compressed=True, second=False):
     def wit(env):
         w = {"d": env["d"], "msg": bytes_env(env, "msg", 32).hex(), "aux": bytes_env(env, "aux", 32).hex(), "warm": warm,
              "compressed": compressed}
-        if second:
+        if second or tweak:
             w["first"] = [bytes_env(env, "msg0", 32).hex(), bytes_env(env, "aux0", 32).hex()]
+        if tweak:
+            w["tweak"] = tweak
+            w["root"] = bytes_env(env, "root", 32).hex()
         return w
     pk = pecc.PrivateKey(d, compressed=compressed)
+    if tweak:
+        # history across two RELATED key objects: a key and the key derived from it by tweaked_key() (taproot output key); one of
+        # them signed something earlier (arbitrary message / aux, possibly the same), then the other signs msg / aux
+        base = pk
+        try:
+            derived = base.tweaked_key(SBytes.sym("root", 32))
+        except core.Unsupported:
+            raise
+        except Exception:
+            check(True, "tweaked secret 0 (refused by the constructor; probability 2^-256)")
+            return "degenerate"
+        earlier, pk = (base, derived) if tweak == "base-then-tweaked" else (derived, base)
+        try:
+            earlier.sign_schnorr(SBytes.sym("msg0", 32), SBytes.sym("aux0", 32))
+        except core.Unsupported:
+            raise
+        except Exception:
+            pass
+        d = pk.secret
     if second:
         # history on one key object: an earlier signing with other message / aux must not influence this one
         try:
@@ -120,6 +162,14 @@ def ob_sign():
     if m["classes"].get("'ok'", 0) < 8 and not m["violations"]:
         m["inconclusive"].append("reachability twin: fewer than 4 parity paths per cache state reached")
     m["sample"] = {"d": "symbolic [1,N-1]", "msg/aux": "32 symbolic bytes", "paths": "key parity x nonce parity"}
+    return m
+
+
+def ob_sign_tweaked(order):
+    m = sym_run(lambda: _sign_path(False, tweak=order), mode="int", timeout_ms=60000, max_paths=3000, max_violations=6)
+    if "'ok'" not in m["classes"] and not m["violations"]:
+        m["inconclusive"].append("reachability twin: no signing path reached")
+    m["sample"] = {"history": order, "d, root, msg0, aux0, msg, aux": "symbolic"}
     return m
 
 
@@ -179,6 +229,27 @@ def replay_sign(w):
     if w.get("warm"):
         phash.tagged_hash(b"TapTweak", b"\x00")
     pk = pecc.PrivateKey(d, compressed=w.get("compressed", True))
+    if w.get("tweak"):
+        # d is the model's value of the signing key's secret; rebuild the relation with real hashes from the base key instead
+        for db in (d, 1, 2, N - 1):
+            base = pecc.PrivateKey(db)
+            derived = base.tweaked_key(bytes.fromhex(w["root"]))
+            earlier, signer = (base, derived) if w["tweak"] == "base-then-tweaked" else (derived, base)
+            for m0, a0 in ((bytes.fromhex(w["first"][0]), bytes.fromhex(w["first"][1])), (msg, aux)):
+                try:
+                    earlier.sign_schnorr(m0, a0)
+                except Exception:
+                    pass
+                try:
+                    got = signer.sign_schnorr(msg, aux).serialize()
+                except Exception:
+                    got = None
+                want = ref_sign(signer.secret, msg, aux)
+                if got != want or not ref_verify(signer.point.x.num, msg, got):
+                    return {"violated": True, "observed": f"base key {db:#x}, tweaked_key({w['root']}): after the {'base' if earlier is base else 'tweaked'} key signed "
+                                                          f"({m0.hex()}, {a0.hex()}), the other key's sign_schnorr({msg.hex()}, {aux.hex()}) = "
+                                                          f"{got.hex() if got else None}, BIP340 = {want.hex()}"}
+        return {"violated": False, "observed": "related keys sign per BIP340 after each other"}
     if w.get("first"):
         try:
             pk.sign_schnorr(bytes.fromhex(w["first"][0]), bytes.fromhex(w["first"][1]))
@@ -227,7 +298,7 @@ class _SSig:
 
 
 @with_env()
-def _verify_path(e, key_inf, r_inf, history=False):
+def _verify_path(e, key_inf, r_inf, history=False, other=None):
     F = e.fld
     d = 0 if key_inf else SI.var("d", 1, N - 1)
     rr = 0 if r_inf else SI.var("rr", 1, N - 1)
@@ -237,6 +308,27 @@ def _verify_path(e, key_inf, r_inf, history=False):
     Rpt = e.point(rr)
     sigobj = _SSig(Rpt, s)
     first = None
+    o = None
+    if other:
+        del shims.HASH_CALLS[:]
+        # an earlier verification of ANY (key, message, R, s) on other objects: module / class level state must not leak.
+        # `other` = which argument is known to differ (the identical call is pointless and the same-objects case is `history`)
+        e.grp.injective_x = True
+        if other == "s-only":
+            # same key, message and R (syntactically the same hash inputs), another s
+            o = {"d": d, "rr": rr, "s": SI.var("s0", 0, N - 1), "msg": msg}
+            core.assume(o["s"] != s)
+            try:
+                first = bool(e.point(d).verify_schnorr(msg, _SSig(e.point(rr), o["s"])))
+            except Exception:
+                first = False
+        else:
+            o = {"d": SI.var("d0", 1, N - 1), "rr": SI.var("rr0", 1, N - 1), "s": SI.var("s0", 0, N - 1), "msg": SBytes.sym("msg0", 32)}
+            core.assume({"s": o["s"] != s, "d": o["d"] != d, "rr": o["rr"] != rr}[other])
+            try:
+                first = bool(e.point(o["d"]).verify_schnorr(o["msg"], _SSig(e.point(o["rr"]), o["s"])))
+            except Exception:
+                first = False
     if history:
         # the same key and signature objects were first asked about another message: the answer for msg stays BIP340's
         msg0 = SBytes.sym("msg0", 32)
@@ -251,6 +343,14 @@ def _verify_path(e, key_inf, r_inf, history=False):
         if history:
             w["msg0"] = bytes_env(env, "msg0", 32).hex()
             w["first"] = first
+        if other:
+            if other == "s-only":
+                w["other"] = {"differs": other, "d": env.get("d"), "rr": env.get("rr"), "s": env["s0"], "msg": w["msg"], "first": first,
+                              "same": [True, True, False, True]}
+            else:
+                w["other"] = {"differs": other, "d": env["d0"], "rr": env["rr0"], "s": env["s0"], "msg": bytes_env(env, "msg0", 32).hex(), "first": first,
+                              "same": [env["d0"] == env.get("d"), env["rr0"] == env.get("rr"), env["s0"] == env["s"],
+                                       bytes_env(env, "msg0", 32) == bytes_env(env, "msg", 32)]}
         return w
     try:
         got = bool(Ppt.verify_schnorr(msg, sigobj))
@@ -273,9 +373,11 @@ def _verify_path(e, key_inf, r_inf, history=False):
                 want = False
             else:
                 want = bool(core.wrap(Tx) == core.wrap(Rx))
-    check(got == want, f"verify_schnorr answers {got} where BIP340 verification answers {want}"
-          + (f" (after verifying the same signature for another message answered {first})" if history else ""), witness=wit)
-    return (got, want) if not history else (first, got, want)
+    check((got == want) if not other else core.s_implies(hash_injective(), got == want),
+          f"verify_schnorr answers {got} where BIP340 verification answers {want}"
+          + (f" (after verifying the same signature for another message answered {first})" if history else "")
+          + (f" (after an earlier verification of another tuple answered {first})" if other else ""), witness=wit)
+    return (got, want) if not (history or other) else (first, got, want)
 
 
 def ob_verify():
@@ -293,6 +395,59 @@ def ob_verify_history():
         m["inconclusive"].append("reachability twin: accepted-then-rejected or rejected-then-accepted history missing")
     m["sample"] = {"history": "verify_schnorr(msg0, sig) then verify_schnorr(msg, sig) on the same point and signature objects", "all": "symbolic"}
     return m
+
+
+def ob_verify_other(differs):
+    m = sym_run(lambda: _verify_path(False, False, other=differs), mode="int", timeout_ms=60000, max_violations=6, max_paths=3000)
+    if "(True, False, False)" not in m["classes"] and "(False, True, True)" not in m["classes"] and not m["violations"]:
+        m["inconclusive"].append("reachability twin: no history with differing answers")
+    m["sample"] = {"history": f"verify_schnorr of another tuple (its {differs} differs) on other objects, then the tuple under test", "all": "symbolic"}
+    return m
+
+
+def _replay_verify_other(w):
+    """rebuild on the real curve: which arguments of the earlier call coincide with the later one is taken from the model"""
+    from buidl import pecc
+    o = w["other"]
+    same_d, same_r, same_s, same_m = o["same"]
+    d = w["d"] or 1
+    d0 = d if same_d else ((N - d) if o["d"] == N - d else (o["d"] or 2))
+    msg = bytes.fromhex(w["msg"])
+    msg0 = msg if same_m else bytes.fromhex(o["msg"])
+    if not same_m and msg0 == msg:
+        msg0 = bytes([msg[0] ^ 1]) + msg[1:]
+    hist = []
+
+    def ask(dk, m, sig):
+        pt = pecc.S256Point.parse(pecc.PrivateKey(dk).point.sec())
+        try:
+            return bool(pt.verify_schnorr(m, pecc.SchnorrSignature.parse(sig))), pt
+        except Exception:
+            return False, pt
+
+    def alter(sig):
+        sv = int.from_bytes(sig[32:], "big")
+        return [sig[:32] + ((sv + 1) % N).to_bytes(32, "big"), sig[:32] + ((N - sv) % N).to_bytes(32, "big"), sig[:32] + (1).to_bytes(32, "big")]
+    # (a) the earlier call verifies a genuine signature, the later one asks about a tuple that shares what the model shares
+    g0 = ref_sign(d0, msg0, b"\x00" * 32)
+    later = [g0] if same_s and same_r else (alter(g0) if same_r else [ref_sign(d, msg, b"\x01" * 32)])
+    for sig in later:
+        a, _ = ask(d0, msg0, g0)
+        got, pt = ask(d, msg, sig)
+        want = ref_verify(pt.x.num, msg, sig)
+        hist.append((a, got, want))
+        if got != want:
+            return {"violated": True, "observed": f"verify_schnorr(key {d0:#x}, {msg0.hex()}, {g0.hex()}) = {a}; then verify_schnorr(key {d:#x}, {msg.hex()}, {sig.hex()}) = {got}; BIP340 = {want}"}
+    # (b) the earlier call rejects an altered signature, the later one asks about the genuine one
+    g = ref_sign(d, msg, b"\x00" * 32)
+    for bad in alter(g):
+        a, _ = ask(d0 if not same_d else d, msg0 if not same_m else msg, bad)
+        got, pt = ask(d, msg, g)
+        want = ref_verify(pt.x.num, msg, g)
+        hist.append((a, got, want))
+        if got != want:
+            return {"violated": True, "observed": f"an altered signature {bad.hex()} was verified first ({a}); then verify_schnorr(key {d:#x}, {msg.hex()}, {g.hex()}) = {got}; BIP340 = {want}"}
+    return {"violated": False, "observed": f"histories agree with BIP340: {hist}"}
 
 
 def _replay_verify_history(w):
@@ -329,6 +484,8 @@ def replay_verify(w):
     """the abstract X values are uninterpreted; rebuild concrete tuples of the same class on the real curve: a genuine signature
     and its mutations, judged by the BIP340 reference verifier"""
     from buidl import pecc
+    if "other" in w:
+        return _replay_verify_other(w)
     if "msg0" in w:
         return _replay_verify_history(w)
     if not w["d"]:
@@ -499,6 +656,12 @@ def obligations(tier):
     q = tier == "quick"
     primes = [11, 19, 23, 43] if q else [p for p in range(11, 252) if p % 4 == 3 and all(p % k for k in range(2, int(p ** 0.5) + 1))]
     obs = [Ob("O0-constants", ob_constants), Ob("O1-sign-bip340", ob_sign, replay="sign"), Ob("O2-verify-bip340", ob_verify, replay="verify"), Ob("O2-verify-history", ob_verify_history, replay="verify"),
+           Ob("O2-verify-history-other", ob_verify_other, {"differs": "s-only"}, replay="verify", budget_s=900),
+           Ob("O2-verify-history-other", ob_verify_other, {"differs": "s"}, replay="verify", budget_s=900),
+           Ob("O2-verify-history-other", ob_verify_other, {"differs": "d"}, replay="verify", budget_s=900),
+           Ob("O2-verify-history-other", ob_verify_other, {"differs": "rr"}, replay="verify", budget_s=900),
+           Ob("O1-sign-related-keys", ob_sign_tweaked, {"order": "base-then-tweaked"}, replay="sign", budget_s=900),
+           Ob("O1-sign-related-keys", ob_sign_tweaked, {"order": "tweaked-then-base"}, replay="sign", budget_s=900),
            Ob("O3-s-range", ob_s_range, replay="s_range")]
     for i in range(0, len(primes), 4):
         obs.append(Ob("O3-lift-x", ob_lift, {"primes": tuple(primes[i:i + 4])}, replay="lift", budget_s=1200))
